@@ -125,7 +125,10 @@ CHECKS.update({
                  "ht-after-meta / prune-after-meta guards); every page write, resize and unlink recorded from the real store across "
                  "store configurations is validated by TLC (SyncTrace) against the pre-image decoded from meta and the free lists: "
                  "before the meta page is durable ln/bbn writes only hit free or beyond-bump pages, the hash table is untouched, no "
-                 "rollback segment is unlinked." + _SEG % "", "DESIGN.md 4/C17, 11",
+                 "rollback segment is unlinked (a page re-emitted with the bytes it already holds is not a modification)." + _SEG % "" +
+                 " The free list of the value files is transcribed in FreeList.tla and model-checked (CopyOnWrite, NoWriteToLiveOrFreed; "
+                 "mutants), and a sweep of free-list shapes (several full pages under a nearly empty head, thousands of pages released "
+                 "at once) is part of the recorded histories.", "DESIGN.md 4/C17, 11",
                  "TLA+ NomtSync and Seglog model-checked with TLC incl. guard mutants; recorded I/O event streams of the real store "
                  "validated by TLC against the decoded pre-image (SyncTrace) and against Seglog (SeglogTrace)"),
 })
@@ -163,9 +166,13 @@ CHECKS.update({
                 text="Alloc (copy-on-write page accounting with free-list pages) is model-checked: Partition and the Step relation; "
                      "Bitbox!OccupancyTruthful is model-checked.  On traces with overflow-heavy and mixed-size value tables the decoder's "
                      "snapshots must show no leaked page and a truthful occupancy in every state (ApiTrace), and consecutive snapshots "
-                     "of ln and bbn must be related by Alloc!Step (AllocTrace).",
-                technique="TLA+ Alloc/Bitbox model-checked with TLC; decoder snapshots validated by TLC as Alloc!Step transitions "
-                          "(AllocTrace) and in every trace state (ApiTrace)"),
+                     "of ln and bbn must be related by Alloc!Step (AllocTrace).  The free list itself is transcribed (FreeList.tla: "
+                     "Conservation, ListWellFormed, DiskMatchesMemory model-checked) and used as a prediction: from one snapshot and the "
+                     "pages that became / stopped being live, FreeList!Finish must give exactly the next snapshot's list, also for lists "
+                     "of several pages (FreeListTrace).  The occupancy reported by a process that recovered a crash image must equal the "
+                     "bucket count of the recovered files.",
+                technique="TLA+ Alloc/Bitbox/FreeList model-checked with TLC; decoder snapshots validated by TLC as Alloc!Step transitions "
+                          "(AllocTrace), as predictions of FreeList!Finish (FreeListTrace) and in every trace state (ApiTrace)"),
     "C20": dict(level="model_checking", engine="tlc", design_ref="DESIGN.md 4/C20, 11", note="Trusted: TLC; flock semantics of the "
                 "kernel on a local filesystem; directory content hashes taken before/after a refused attempt; H-io events of a closing "
                 "handle recorded after its unlock event count as late I/O.",
